@@ -368,7 +368,8 @@ def schedule_jobs(ctx):
     jobs = []
     info = {}
     # (1) every complete schedule of 2 workers x 3 jobs, for every fail set (PathSet 1), 1-D cache
-    paths, r = tlc_paths('DFECacheMC_paths.cfg', workers=4)
+    # (quick tier: three fail sets - the schedules themselves do not depend on the fail set)
+    paths, r = tlc_paths('DFECacheMC_paths5.cfg' if ctx.quick else 'DFECacheMC_paths.cfg', workers=4)
     info['paths_2x3_enumerated'] = len(paths)
     info['paths_states'] = r.states
     by_fail = {}
@@ -377,7 +378,7 @@ def schedule_jobs(ctx):
     sel = []
     if ctx.quick:
         for fl, ps in sorted(by_fail.items()):
-            sel += rng.sample(ps, min(len(ps), 110))
+            sel += rng.sample(ps, min(len(ps), 300))
     else:
         for fl, ps in sorted(by_fail.items()):
             sel += ps if fl in ((), (1,)) else rng.sample(ps, min(len(ps), 1200))
@@ -420,18 +421,60 @@ def schedule_jobs(ctx):
 # --------------------------------------------------------------------------
 # Part A: real processes, split jobs, merges
 # --------------------------------------------------------------------------
-def mp_record(rid, lay, cpus):
-    fd, log = tempfile.mkstemp(prefix='c17-joblog-', dir=common.SCRATCH_ROOT)
-    os.close(fd)
-    os.environ['C17_JOBLOG'] = log
-    cache = None
+MP_TIMEOUT = 30.0
+
+
+def _mp_child(conn, lay, cpus):
+    """Runs in a forked child (own session, so that a hung pool can be killed as a group)."""
+    import warnings
+    warnings.simplefilter('ignore')
+    os.setsid()
     try:
         with quiet_stderr():
             try:
                 cache = lay.build(cpus)
-                out = {'outcome': 'ok', 'exc': 'none', 'table': lay.table(cache)}
+                msg = ('ok', 'none', lay.table(cache), cache)
             except Exception as e:
-                out = {'outcome': 'error', 'exc': type(e).__name__, 'table': []}
+                msg = ('error', type(e).__name__, [], None)
+        conn.send(msg)
+    except BaseException as e:          # e.g. the cache cannot be pickled
+        try:
+            conn.send(('error', 'child:' + type(e).__name__, [], None))
+        except Exception:
+            pass
+    finally:
+        conn.close()
+
+
+def mp_record(rid, lay, cpus):
+    """One real run of the cache constructor (real multiprocessing for cpus > 1) in a forked child with a
+    time limit: a pool that never terminates is recorded as outcome 'hang' instead of hanging the check."""
+    import multiprocessing as mp, signal
+    fd, log = tempfile.mkstemp(prefix='c17-joblog-', dir=common.SCRATCH_ROOT)
+    os.close(fd)
+    os.environ['C17_JOBLOG'] = log
+    cache = None
+    mpc = mp.get_context('fork')
+    try:
+        par, chi = mpc.Pipe(duplex=False)
+        p = mpc.Process(target=_mp_child, args=(chi, lay, cpus))
+        p.start()
+        chi.close()
+        if par.poll(MP_TIMEOUT):
+            try:
+                outcome, exc, table, cache = par.recv()
+            except EOFError:
+                outcome, exc, table, cache = 'error', 'child-died', [], None
+            p.join(20)
+        else:
+            outcome, exc, table = 'hang', 'none', []
+        if p.is_alive() or outcome == 'hang':
+            try:
+                os.killpg(p.pid, signal.SIGKILL)
+            except Exception:
+                pass
+            p.join(10)
+        out = {'outcome': outcome, 'exc': exc, 'table': table}
         counts = [0] * lay.nj
         pids = set()
         with open(log) as f:
@@ -526,10 +569,6 @@ def merge_records(ctx, pieces):
             mid = full[:]
             mid.insert(len(mid) // 2, ('a', ta))
             cases.append(mid)
-            if not ctx.quick or split <= 3:
-                pass
-            elif len(cases) > 14:
-                cases = rng.sample(cases[:-8], 6) + cases[-8:]
             for case in cases:
                 objs = [pieces[(nj, split, t)] if kind == 'p' else alt[split][1] for kind, t in case]
                 tabs = [lay0.table(o) for o in objs]
@@ -598,13 +637,6 @@ class Fam:
     def spec2(self, q):
         return {'kind': 'fam', 'comps': [[rat(q[c]), kx, [rat(v) for v in px], ky, [rat(v) for v in py]]
                                          for c, ((kx, px), (ky, py)) in enumerate(self.kinds)]}
-
-
-def rand_comp(rng, n):
-    if rng.random() < 0.6:
-        return ('pl', [rng.choice([0.0, 0.125, 0.25, 0.5, 0.75, 1.0, 1.5]) / (1 + k) for k in range(n)][::-1]
-                if rng.random() < 0.5 else [rng.choice([0.03125, 0.125, 0.25, 0.5, 1.0]) for k in range(n)])
-    return ('invsq', [rng.choice([0.125, 0.25, 0.5, 1.0, 2.0])])
 
 
 # ---- independent evaluation of the shipped densities (closed forms with math / scipy.special) ----
@@ -779,7 +811,7 @@ THETAS = [1.0, 2.5, 0.375, 1000.0, 12345.678]
 PLV = [0.0, 0.03125, 0.125, 0.25, 0.5, 0.75, 1.0, 1.5]
 
 
-def rand_comp(rng, n):           # (overrides the draft above)
+def rand_comp(rng, n):
     if rng.random() < 0.6:
         v = [rng.choice(PLV) for _ in range(n)]
         if rng.random() < 0.7:
@@ -959,8 +991,6 @@ def quad_records(ctx):
             params = list(p[:-1] if name == 'biv_lognormal' else p) + [rho, p1, g1]
             site = 'Cache2D.integrate_symmetric_point_pos'
             call = lambda: c.integrate_symmetric_point_pos(params, None, pdf, theta)
-            if name == 'biv_ind_gamma' and len(p) in (2, 4):
-                pass      # the trailing rho is documented as ignored (len 3 / 5)
         else:
             p1, p2 = rng.choice([0.0625, 0.125, 0.25]), rng.choice([0.0625, 0.25, 0.5])
             g1, g2 = rng.choice([2.5, 0.75]), rng.choice([2.5, 0.75])
@@ -1115,7 +1145,7 @@ def quad_records(ctx):
             out = {'c': rats(cv), 'py': rats(pv)}
         except Exception as e:
             out = {'raised': type(e).__name__}
-        add('pdf2d', 'PDFs.' + name + ('[strided]' if layout == 'strided' else ''),
+        add('pdf2d', 'PDFs.' + name + ('(strided)' if layout == 'strided' else ''),
             {'name': name, 'x': rats(xs), 'y': rats(ys), 'params': rats(p), 'layout': layout, 'ref': rats(ref)}, out, cls=layout)
     return recs, stats
 
